@@ -8,7 +8,7 @@ CHECKS = {
    text='Every call of the TYPED alphabet is applied to every state reachable over a finite path universe on every backend configuration (BFS to fixpoint, rebuild by replay); outcome, required error kinds and the complete observable snapshot are compared with an abstract-tree model after every transition. Histories of unbounded length are covered wherever the fixpoint is reached.',
    note='alphabet bound (<=14 paths, <=3 components, listed names and contents), stack height <=3; overlay layers are filesystem roots or directories inside other filesystems (Sub); state key = raw snapshots of the base filesystems', ref='3/C01'),
  'C02': dict(engine='seq(pair)', cat='model_checking', tech='product explicit-state BFS: MemoryFS and PhysicalFS in lock-step, each the other\'s oracle',
-   text='The same histories are replayed on a fresh MemoryFS and a fresh PhysicalFS; BFS over the joint raw state; after every call the two must agree on Ok/Err, on the not-found and already-exists classes and on the full observable tree and bytes. Write/seek/flush scripts of depth 4 on create handles of both backends are compared with a common cursor model.',
+   text='The same histories are replayed on a fresh MemoryFS and a fresh PhysicalFS; BFS over the joint raw state; after every call the two must agree on Ok/Err, on the not-found and already-exists classes and on the full observable tree and bytes. Write/seek/flush scripts (depth 4 on memory, 3 on the physical backend) and read/seek scripts of depth 3 on handles of both backends are compared with a common cursor model; every public constructor of the in-memory backend (new, default, VfsPath::from) behaves like new() on all programs of <= 2 calls.',
    note='host filesystem tmpfs; names accepted by it; alphabet bound', ref='3/C02'),
  'C03': dict(engine='seq', cat='model_checking', tech='explicit-state BFS to fixpoint, well-formedness invariant on every reached state',
    text='Every call (no type restriction) on every path in every reachable state of every configuration incl. overlays with populated lower layers; the invariant (root is a directory, every entry has a directory parent and is reached by walk_dir, no non-empty directory becomes a file) is evaluated on the top-level namespace and on every base filesystem after every transition. Write handles kept open across other calls (open / write+flush / write+drop as letters of the alphabet, the handle being part of the state) are explored on Mem, Phys, Alt and Overlay.',
@@ -17,7 +17,7 @@ CHECKS = {
    text='In every reachable state every path of the universe (plus everything listings reveal) is observed with exists/metadata/is_file/is_dir/read_dir/open+read and walk_dir from every directory; the observers must tell one consistent story (model-free). Includes the states reached with a write handle kept open across other calls.',
    note='alphabet bound incl. prefix-sharing, dotted and multi-byte names', ref='3/C05'),
  'C07': dict(engine='seq(pair)', cat='model_checking', tech='product explicit-state BFS of altroot and translated twin + exhaustive hostile-join sweep with recorded underlying calls',
-   text='Alt(Recorder(X),P) and a twin X\' are explored in lock-step (op(q) vs op(P/q)); outcomes, sub-tree views and raw snapshots must agree; every path argument reaching X lies below P and the snapshot outside P (and outside the PhysicalFS root, at OS level) is unchanged; every join argument of <=3-4 hostile segments x 18 call kinds is swept. Three pairs also run the timestamp setters and compare which entries carry the written instant.',
+   text='Alt(Recorder(X),P) and a twin X\' are explored in lock-step (op(q) vs op(P/q)); outcomes, sub-tree views and raw snapshots must agree; every path argument reaching X lies below P and the snapshot outside P (and outside the PhysicalFS root, at OS level) is unchanged; every join argument of <=3-4 hostile segments x 18 call kinds is swept. Three pairs also run the timestamp setters and compare which entries carry the written instant. Write handles obtained through the altroot are run against handles on P/q of a twin, every script of 3 steps (write, write_all, write!, seek, flush), comparing step results and the bytes the underlying filesystem shows after every step.',
    note='symlinks out of scope; alphabet bound; P of depth 0..3', ref='3/C07'),
  'C08': dict(engine='seq', cat='model_checking', tech='explicit-state BFS over overlays with recording wrappers on every layer',
    text='All calls incl. explicit observer calls in every reachable state of overlays with populated lower layers: the recorder log of lower layers never shows a mutating method, observers issue no mutating call to any layer, deep snapshots (type, bytes, created, modified) of lower layers are unchanged.',
@@ -48,7 +48,7 @@ CHECKS.update({
    text='No panic in: BFS with the unrestricted alphabet including removal of the root and the states after it and type-inconsistent overlay layerings; read/write/seek scripts at every offset; a read and a write handle on one file opened, used, dropped and re-opened in every order while the file or its parent is removed or replaced (sync and async); every call on / next to / below hostile on-disk entries; every operation on every path of the embedded fixtures; all join strings up to the bound. OverlayFS::new(&[]) is asserted to panic.',
    note='copy_dir/move_dir into the own subtree excluded (documented); the async port has its own sweep: unrestricted product BFS, reader scripts incl. offsets next to u64::MAX / i64::MIN, poll plans, all under catch_unwind', ref='3/C13'),
  'C14': dict(engine='handle', cat='model_checking', tech='exhaustive read/seek and write/seek/flush scripts on handles of every backend, call by call against std::io::Cursor',
-   text='Every script of d steps over 16 reader steps (reads of 0/1/2/5 bytes, seeks from Start/Current/End before the start, inside, at and past the end) on files of 0, 1 and 4 bytes from Mem, Phys, Alt, Overlay (upper, lower-only, and middle layer shadowing a bottom copy) and Embedded, and every script over 13 writer steps on create and append handles, compared call by call (return values, bytes, positions, published bytes) with std::io::Cursor.',
+   text='Every script of d steps over 18 reader steps (reads of 0/1/2/5 bytes, read_to_end, read_exact, seeks from Start/Current/End before the start, inside, at and past the end) on files of 0, 1 and 4 bytes from Mem, Phys, Alt, Overlay (upper, lower-only, and middle layer shadowing a bottom copy) and Embedded, and every script over 15 writer steps (write, write_all, write!, seeks, flush) on create and append handles, compared call by call (return values, bytes, positions, published bytes) with std::io::Cursor.',
    note='d = 4 (quick) / 5 (thorough, memory based); seeking on append handles compared on memory based stacks only', ref='3/C14'),
  'C15': dict(engine='async', cat='model_checking', tech='product explicit-state BFS sync vs async + exhaustive enumeration of poll schedules (<=2 injected Pendings) with an own executor',
    text='Sync and async stacks of the same configuration are explored in lock-step (outcome classes, error kinds, observable trees); async read handles run all read/seek scripts against Cursor; for walks and the composites built on them every plan with 1 and 2 injected Pendings at the await points the wrapper owns (every AsyncFileSystem method entry, every read_dir stream item, at every level of the stack) must give the plan-free result, which must equal the sync twin; reader+writer scripts with removals end in the same tree in both worlds (memory based stacks); symlinks of four kinds x 13 calls x 2 targets give the same outcome classes on PhysicalFS and AsyncPhysicalFS.',
